@@ -36,9 +36,21 @@ pub enum Src {
     PHeapRef,
     PHash,
     PHashRef,
+    PClonedAd,
+    PCopiedAd,
+    PClonedIt,
+    PConVec,
+    PConSlice,
+    PConRange,
+    PConIter,
+    PConIterPar,
+    PBTreeMap,
+    PBTreeMapRef,
+    PHashMap,
+    PHashMapRef,
 }
 
-pub const ALL_SRC: [(Src, &str); 21] = [
+pub const ALL_SRC: [(Src, &str); 33] = [
     (Src::SVec, "svec"),
     (Src::SSlice, "sslice"),
     (Src::SIter, "siter"),
@@ -60,6 +72,18 @@ pub const ALL_SRC: [(Src, &str); 21] = [
     (Src::PHeapRef, "pheapref"),
     (Src::PHash, "phash"),
     (Src::PHashRef, "phashref"),
+    (Src::PClonedAd, "pclonedad"),
+    (Src::PCopiedAd, "pcopiedad"),
+    (Src::PClonedIt, "pclonedit"),
+    (Src::PConVec, "pconvec"),
+    (Src::PConSlice, "pconslice"),
+    (Src::PConRange, "pconrange"),
+    (Src::PConIter, "pconiter"),
+    (Src::PConIterPar, "pconiterpar"),
+    (Src::PBTreeMap, "pbtreemap"),
+    (Src::PBTreeMapRef, "pbtreemapref"),
+    (Src::PHashMap, "phashmap"),
+    (Src::PHashMapRef, "phashmapref"),
 ];
 
 #[derive(Clone, Copy, Debug, PartialEq, Eq)]
@@ -94,7 +118,8 @@ impl Src {
     pub fn item_kind(self) -> ItemKind {
         match self {
             Src::SVec | Src::SIter | Src::PVec | Src::PIter | Src::PDeque | Src::PList | Src::PBTree | Src::PHeap | Src::PHash => ItemKind::Owned,
-            Src::SRange | Src::PRange => ItemKind::Usize,
+            Src::PClonedAd | Src::PClonedIt | Src::PConVec | Src::PConIter | Src::PConIterPar | Src::PBTreeMap | Src::PHashMap => ItemKind::Owned,
+            Src::SRange | Src::PRange | Src::PCopiedAd | Src::PConRange => ItemKind::Usize,
             _ => ItemKind::Ref,
         }
     }
@@ -105,7 +130,7 @@ impl Src {
     /// the source's length is known up front (given `known` for iterator sources)
     pub fn known_len(self, known: bool) -> bool {
         match self {
-            Src::SIter | Src::PIter => known,
+            Src::SIter | Src::PIter | Src::PConIter | Src::PConIterPar => known,
             Src::PHash | Src::PHashRef | Src::PBTree | Src::PBTreeRef | Src::PList | Src::PListRef | Src::PDeque | Src::PDequeRef | Src::PHeap | Src::PHeapRef => true,
             _ => true,
         }
